@@ -521,9 +521,7 @@ func isArray(buf []byte) bool {
 Loop:
 	for _, c := range buf {
 		switch c {
-		case ' ':
-		case '\n':
-		case '\t':
+		case ' ', '\n', '\t', '\r':
 			continue
 		case '[':
 			return true
@@ -1273,7 +1271,7 @@ func (p Patch) ApplyIndentWithOptions(doc []byte, indent string, options *ApplyO
 	self := newLazyNode(&raw)
 
 	var pd container
-	if doc[0] == '[' {
+	if isArray(doc) {
 		pd = &partialArray{
 			self: self,
 		}
